@@ -147,6 +147,22 @@ def gen_triplet_strings(rng, n):
                     s += rng.choice(['', ' ', '_']) + sign + rng.choice(['', ' ']) + t
             parts.append(s)
         out.append(','.join(parts))
+    # numbers at and beyond the limits of the repaired parser (|n| <= 10^6, |component| <= 10^8), and long sums
+    big = ['999999', '1000000', '1000001', '4166666', '4166667', '89478485', '89478486', '2147483647', '2147483648',
+           '99999999999999999999', '1000000/24', '1000000/1', '1000001/24', '24000000/24']
+    for _ in range(max(4, n // 12)):
+        ls = rng.choice(letters)
+        r = rng.random()
+        if r < 0.5:
+            t = '%s%s*%s' % (rng.choice(['', '-', '+']), rng.choice(big), ls[rng.randrange(3)])
+        elif r < 0.7:
+            t = '%s%s' % (ls[0], rng.choice(['+', '-']) + rng.choice(big))
+        else:      # a component that grows term by term: 1000000x repeated k times crosses 10^8 between k = 4 and 5
+            k = rng.choice([2, 3, 4, 5, 6, 90])
+            t = '+'.join(['%s*%s' % (rng.choice(['1000000', '999999', '500000']), ls[0])] * k)
+        parts = [t, ls[1], ls[2]]
+        rng.shuffle(parts)
+        out.append(','.join(parts))
     return out
 
 
